@@ -76,6 +76,13 @@ def narrowing_casts(val, T, member_T=None):
                     out.append((t[1], t))
                 elif isinstance(inner, tuple) and inner and inner[0] == "c" and not ev._exact_in(inner[1], t[1]):
                     out.append((t[1], t))   # an inexact constant written in a narrower type than the computation
+            # a value *computed* in a narrower type and then widened into the T computation carries only the narrower precision
+            if t[0] == "cast" and len(t) > 3 and t[1] in MANT and t[3] in MANT and T in MANT and MANT[t[3]] < MANT[T] and MANT[t[1]] >= MANT[T]:
+                inner = t[2]
+                while isinstance(inner, tuple) and inner and inner[0] == "cast":
+                    inner = inner[2]
+                if isinstance(inner, tuple) and inner and inner[0] in ("add", "sub", "mul", "div", "fn") and not _exact_constant(inner, t[3]):
+                    out.append((t[3], t))
             for x in t:
                 rec(x)
         elif isinstance(t, ev.Obj):
@@ -86,6 +93,33 @@ def narrowing_casts(val, T, member_T=None):
                 rec(v)
     rec(val)
     return out
+
+
+def _exact_constant(t, X):
+    """Is t a constant expression whose exact value (and every intermediate) is representable in X?"""
+    from fractions import Fraction
+    def val(u):
+        if isinstance(u, int):
+            return Fraction(u)
+        if isinstance(u, tuple) and u:
+            if u[0] == "c":
+                return u[1]
+            if u[0] == "cast":
+                return val(u[2])
+            if u[0] == "neg":
+                v = val(u[1])
+                return None if v is None else -v
+            if u[0] in ("add", "sub", "mul", "div"):
+                a, b = val(u[1]), val(u[2])
+                if a is None or b is None or (u[0] == "div" and b == 0):
+                    return None
+                r = {"add": a + b, "sub": a - b, "mul": a * b, "div": (a / b) if b else None}[u[0]]
+                return r if r is not None and ev._exact_in(r, X) else None
+        return None
+    if ev.leaves(t):
+        return False
+    v = val(t)
+    return v is not None and ev._exact_in(v, X)
 
 
 def check_linear_map(chk, rule, F, mname, f, a, b, inverse, conv_fields, argname="x"):
